@@ -60,7 +60,8 @@ def run(ctx):
         for x in ins:
             f.write(json.dumps(x) + "\n")
     wins = []
-    for window in [-5, 0, 1, 10 ** 6, 50 * 10 ** 6, 10 ** 9, 3600 * 10 ** 9]:
+    # windows up to the int64 maximum: `last + window` style refactorings overflow there (the sentinel 'never expires')
+    for window in [-5, 0, 1, 10 ** 6, 50 * 10 ** 6, 10 ** 9, 3600 * 10 ** 9, 250 * 365 * 86400 * 10 ** 9, 2 ** 62, I64_MAX - 1, I64_MAX]:
         for age in [0, 1000, 10 ** 6, 40 * 10 ** 6, 60 * 10 ** 6, 2 * 10 ** 9, 7200 * 10 ** 9]:
             for count in [0, 1, 7]:
                 wins.append({"Window": window, "Age": age, "Count": count})
